@@ -20,6 +20,7 @@ func propC17(c *Ctx) {
 	c.rulePathParamsRequired()
 	c.ruleResponseKeys()
 	c.ruleExpandedTree()
+	c.ruleEveryInteraction()
 }
 
 func (c *Ctx) rulePanicCover() {
